@@ -1,6 +1,6 @@
 //! DICOM value serialization
 
-use dicom_core::PrimitiveValue;
+use dicom_core::{PrimitiveValue, Tag};
 use serde::Serialize;
 use serde::ser::SerializeSeq;
 
@@ -31,6 +31,45 @@ impl Serialize for AsStrings<'_> {
     {
         let strings = self.0.to_multi_str();
         serializer.collect_seq(&*strings)
+    }
+}
+
+/// Wrapper type for [primitive values][1]
+/// which should be encoded as attribute tags,
+/// each a string of eight uppercase hexadecimal digits (`"GGGGEEEE"`).
+///
+/// Should be used for the value representation AT.
+///
+/// [1]: dicom_core::PrimitiveValue
+#[derive(Debug, Clone)]
+pub struct AsTags<'a>(&'a PrimitiveValue);
+
+impl<'a> From<&'a PrimitiveValue> for AsTags<'a> {
+    fn from(value: &'a PrimitiveValue) -> Self {
+        AsTags(value)
+    }
+}
+
+impl Serialize for AsTags<'_> {
+    fn serialize<S>(&self, serializer: S) -> Result<S::Ok, S::Error>
+    where
+        S: serde::Serializer,
+    {
+        fn tag_to_string(Tag(g, e): Tag) -> String {
+            format!("{g:04X}{e:04X}")
+        }
+
+        match self.0 {
+            PrimitiveValue::Tags(tags) => {
+                serializer.collect_seq(tags.iter().copied().map(tag_to_string))
+            }
+            // textual values holding tags are normalized if possible
+            other => serializer.collect_seq(other.to_multi_str().iter().map(|s| {
+                s.parse::<Tag>()
+                    .map(tag_to_string)
+                    .unwrap_or_else(|_| s.to_string())
+            })),
+        }
     }
 }
 
